@@ -5,6 +5,7 @@ import ast
 
 from ..absint import Interp
 from ..src import AnalysisError, M_CASING, M_NAMING
+from typing import List
 from ..sym import N, dotted, show
 
 PROP = "C19"
@@ -142,6 +143,68 @@ def rule_I2(ctx, rule: str = "I2") -> None:
                     "enum Foo { FOO_A = 0; A = 1; }")
 
 
+def reader_lookup(ctx, mod, q: str):
+    """how q (from_dict / from_pydict) finds the field of an incoming key, read off the index used with meta_by_field_name on
+    every path: (table attribute or None, fallback expressions over $key, location, reason-if-not-recognised)"""
+    from ..absint import Interp
+    from ..sym import N, walk, show
+    fn = mod.func(q)
+
+    def roles(it, depth):
+        if depth == 0:
+            return [N("$key"), N("$jvalue")] if it[0] == "call" else [N("$key")]
+        return None
+
+    paths = Interp(mod, loop_roles=roles).run(fn)
+    ctx.count(len(paths))
+    loop = next((n for n in ast.walk(fn) if isinstance(n, ast.For)), fn)
+    loc = mod.loc(loop)
+    table = None
+    fbs: List[str] = []
+    seen = 0
+
+    def is_get(t):
+        return t[0] == "call" and t[1][0] == "a" and t[1][2] == "get" and t[1][1][0] == "a" and t[1][1][1][0] == "a" and t[1][1][1][2] == "_betterproto" \
+            and t[1][1][2] != "meta_by_field_name" and len(t[2]) == 1 and t[2][0] == N("$key")
+
+    for p in paths:
+        idx = set()
+        terms = list(p.valuation) + [e.data for e in p.events if isinstance(e.data, tuple)]
+        for t0 in terms:
+            for t_ in walk(t0):
+                if t_[0] == "sub" and t_[1][0] == "a" and t_[1][2] == "meta_by_field_name":
+                    idx.add(t_[2])
+                if t_[0] == "call" and t_[1][0] == "a" and t_[1][2] == "get" and t_[1][1][0] == "a" and t_[1][1][2] == "meta_by_field_name" and t_[2]:
+                    idx.add(t_[2][0])
+        for x in idx:
+            seen += 1
+            if x[0] == "op" and x[1] == "or" and is_get(x[2]):
+                tb = x[2][1][1][2]
+                table = table or tb
+                if tb != table:
+                    return None, [], loc, "different tables consulted"
+                fbs.append(show(("op", "or") + tuple(x[3:])) if len(x) > 4 else show(x[3]))
+            elif is_get(x):
+                # a hit: the path must have decided that the lookup produced something
+                hit = any((k == ("op", "is", x, ("c", None)) and not v) or (k == x and v) for k, v in p.valuation.items())
+                if not hit:
+                    return None, [], loc, "table hit used without testing it"
+                table = table or x[1][1][2]
+            else:
+                gets = [k[2] if k[0] == "op" else k for k, v in p.valuation.items()
+                        if (k[0] == "op" and k[1] == "is" and is_get(k[2]) and k[3] == ("c", None) and v) or (is_get(k) and not v)]
+                if gets:
+                    table = table or gets[0][1][1][2]
+                    fbs.append(show(x))
+                else:
+                    if any(is_get(t_) for t_ in walk(x)):
+                        return None, [], loc, f"lookup expression {show(x)} not recognised"
+                    return None, [show(x)], loc, None
+    if not seen:
+        return None, [], loc, "no lookup of the field metadata by name found"
+    return table, sorted(set(fbs)), loc, None
+
+
 def _norm_key_expr(e: ast.AST, casing_name: str, field_name: str) -> str:
     """key expression with its two variables renamed to $casing / $field"""
     class R(ast.NodeTransformer):
@@ -199,79 +262,108 @@ def rule_I3(ctx, rule: str = "I3") -> None:
     for q in ("Message._from_dict_init", "Message.from_pydict"):
         fn = mod.func(q)
         ctx.analysed(q)
-        loop = next((n for n in ast.walk(fn) if isinstance(n, ast.For) and isinstance(n.target, (ast.Name, ast.Tuple))), None)
-        key = loop.target.id if isinstance(loop.target, ast.Name) else loop.target.elts[0].id
-        asg = next((n for n in ast.walk(loop) if isinstance(n, ast.Assign) and isinstance(n.targets[0], ast.Name) and n.targets[0].id == "field_name"), None)
-        if asg is None:
-            ctx.inconclusive(rule, f"{q}:lookup", "field_name assignment not recognised", mod.loc(fn))
+        t, fbs, loc, why = reader_lookup(ctx, mod, q)
+        if why:
+            ctx.inconclusive(rule, f"{q}:lookup", why, mod.loc(fn))
             return
-        v = asg.value
-        first, fallback = (v.values[0], v.values[1:]) if isinstance(v, ast.BoolOp) and isinstance(v.op, ast.Or) else (v, [])
-        t = None
-        if isinstance(first, ast.Call) and isinstance(first.func, ast.Attribute) and first.func.attr == "get" and isinstance(first.func.value, ast.Attribute) \
-                and len(first.args) == 1 and ast.unparse(first.args[0]) == key and "_betterproto" in ast.unparse(first.func.value):
-            t = first.func.value.attr
-        fbs = [ast.unparse(f).replace(key, "$key") for f in fallback] if t else [ast.unparse(v).replace(key, "$key")]
-        # the if-form of the same fallback: later assignments to field_name in the loop
-        for other in ast.walk(loop):
-            if isinstance(other, ast.Assign) and other is not asg and isinstance(other.targets[0], ast.Name) and other.targets[0].id == "field_name":
-                fbs.append(ast.unparse(other.value).replace(key, "$key"))
-        readers[q] = (t, fbs, asg)
+        readers[q] = (t, fbs, loc)
     for q, (t, fb, asg) in readers.items():
         if t is None:
-            ctx.refuted(rule, f"{q}:lookup", "derived-from-key", mod.loc(asg),
+            ctx.refuted(rule, f"{q}:lookup", "derived-from-key", asg,
                         f"{q} derives the field name from the key ({fb[0]}) instead of looking the key up: the casing functions are not inverse to each other "
                         "(address_line_1 -> addressLine1 -> address_line1), so fields with a digit group or single-letter group in their name are silently dropped on a dict / JSON round trip",
                         "M.from_dict(M(address_line_1='x').to_dict())")
         else:
             table_attr = table_attr or t
             if t != table_attr:
-                ctx.refuted(rule, f"{q}:lookup", f"{t}!={table_attr}", mod.loc(asg), "the two decoders consult different tables")
+                ctx.refuted(rule, f"{q}:lookup", f"{t}!={table_attr}", asg, "the two decoders consult different tables")
             else:
-                ctx.proved(rule, f"{q}:lookup", mod.loc(asg), f"table {t} first, then {fb}")
+                ctx.proved(rule, f"{q}:lookup", asg, f"table {t} first, then {fb}")
     if table_attr is None:
         return
     # table construction in __init__ (the table has to be complete before the first from_dict, which may precede any to_dict):
-    # fills `T[KEY] = field` / `T.setdefault(KEY, field)` inside `for field in <all fields>`, the casing either a loop
-    # variable over a literal tuple or written out
+    # fills `T[KEY] = field` / `T.setdefault(KEY, field)` inside a loop over all fields, the casing either a loop
+    # variable over a literal tuple or written out.  Local copies of the field name (`name = field.name`) are looked through.
     assigned = [n for n in ast.walk(init) if isinstance(n, ast.Assign) and isinstance(n.targets[0], ast.Attribute) and n.targets[0].attr == table_attr]
     if not assigned:
         ctx.refuted(rule, "key-table:construction", "not-built-at-construction", mod.loc(init),
                     f"{table_attr} is not built when the class metadata is constructed: from_dict on a class whose objects were not serialised before cannot find the emitted keys")
         return
     src_var = ast.unparse(assigned[0].value)
-    fills = []     # (normalised key expr with $casing/$field, casing text, domain text, node)
-    for loop in [n for n in ast.walk(init) if isinstance(n, ast.For) and isinstance(n.target, ast.Name)]:
+    # iterables that enumerate every field: dataclasses.fields(cls) itself, and dicts that receive an entry keyed by the
+    # field name for every element of such an iterable (unconditionally, directly in the loop body)
+    field_lists = {n.targets[0].id for n in ast.walk(init) if isinstance(n, ast.Assign) and isinstance(n.targets[0], ast.Name)
+                   and isinstance(n.value, ast.Call) and ast.unparse(n.value.func).endswith("fields")}
+    all_loops = [n for n in ast.walk(init) if isinstance(n, ast.For) and isinstance(n.target, ast.Name)]
+
+    def name_terms(loop: ast.For):
+        """source texts that denote the name of the current field inside this loop"""
+        it = ast.unparse(loop.iter)
+        base = None
+        if it in field_lists:
+            base = f"{loop.target.id}.name"
+        elif it in name_keyed or (it.endswith(".keys()") and it[:-7] in name_keyed):
+            base = loop.target.id
+        if base is None:
+            return set()
+        out = {base}
+        for st in loop.body:
+            if isinstance(st, ast.Assign) and len(st.targets) == 1 and isinstance(st.targets[0], ast.Name) and ast.unparse(st.value) in out:
+                out.add(st.targets[0].id)
+        return out
+
+    name_keyed: set = set()
+    for _ in range(2):
+        for loop in all_loops:
+            nt = name_terms(loop)
+            for st in loop.body:
+                if nt and isinstance(st, ast.Assign) and isinstance(st.targets[0], ast.Subscript) and isinstance(st.targets[0].value, ast.Name) \
+                        and ast.unparse(st.targets[0].slice) in nt:
+                    name_keyed.add(st.targets[0].value.id)
+
+    def subst(e: ast.AST, nt, extra=None) -> ast.AST:
+        import copy
+        class R(ast.NodeTransformer):
+            def visit(self, n):
+                if isinstance(n, ast.expr) and ast.unparse(n) in nt:
+                    return ast.Name("$field", ast.Load())
+                return super().visit(n)
+        return R().visit(copy.deepcopy(e))
+
+    fills = []     # (normalised key expr with $casing/$field, casing text, all-fields loop?, node)
+    for loop in all_loops:
+        nt = name_terms(loop)
+        if not nt:
+            continue
         for c in ast.walk(loop):
             keyexpr = None
             if isinstance(c, ast.Call) and isinstance(c.func, ast.Attribute) and c.func.attr == "setdefault" and len(c.args) == 2:
                 keyexpr, tgt, val = c.args[0], c.func.value, c.args[1]
             elif isinstance(c, ast.Assign) and isinstance(c.targets[0], ast.Subscript):
                 keyexpr, tgt, val = c.targets[0].slice, c.targets[0].value, c.value
-            if keyexpr is None or ast.unparse(tgt) != src_var or ast.unparse(val) != loop.target.id:
+            if keyexpr is None or ast.unparse(tgt) != src_var or ast.unparse(val) not in nt:
                 continue
+            ke = subst(keyexpr, nt)
             # which casing function is applied to the field name in the key?
             inner = next((n for n in ast.walk(loop) if isinstance(n, ast.For) and n is not loop and isinstance(n.target, ast.Name) and isinstance(n.iter, (ast.Tuple, ast.List))
                           and c in list(ast.walk(n))), None)
-            applied = [x for x in ast.walk(keyexpr) if isinstance(x, ast.Call) and len(x.args) == 1 and ast.unparse(x.args[0]) == loop.target.id]
+            applied = [x for x in ast.walk(ke) if isinstance(x, ast.Call) and len(x.args) == 1 and ast.unparse(x.args[0]) == "$field"]
             for call in applied:
                 f = call.func
                 if inner is not None and isinstance(f, ast.Name) and f.id == inner.target.id:
                     for e in inner.iter.elts:
-                        fills.append((_norm_key_expr(keyexpr, inner.target.id, loop.target.id), ast.unparse(e), ast.unparse(loop.iter), c))
+                        fills.append((_norm_key_expr(ke, inner.target.id, "$field"), ast.unparse(e), True, c))
                 else:
                     import copy
-                    ke = copy.deepcopy(keyexpr)
-                    for x in ast.walk(ke):
+                    ke2 = copy.deepcopy(ke)
+                    for x in ast.walk(ke2):
                         if isinstance(x, ast.Call) and ast.dump(x.func) == ast.dump(f):
                             x.func = ast.Name("$casing", ast.Load())
-                    fills.append((_norm_key_expr(ke, "$casing", loop.target.id), ast.unparse(f), ast.unparse(loop.iter), c))
-    all_fields = {ast.unparse(n.targets[0].value) for n in ast.walk(init) if isinstance(n, ast.Assign) and isinstance(n.targets[0], ast.Subscript)
-                  and ast.unparse(n.targets[0].slice) == "field.name" and ast.unparse(n.value) == "meta"}
+                    fills.append((_norm_key_expr(ke2, "$casing", "$field"), ast.unparse(f), True, c))
     node = fills[0][3] if fills else assigned[0]
     for q, e in emit.items():
         name = f"{q}:keys-in-table"
-        covered = sorted({cas for k, cas, dom, _ in fills if k == e and dom in all_fields})
+        covered = sorted({cas for k, cas, dom, _ in fills if k == e and dom})
         if not fills:
             ctx.refuted(rule, name, "no-cased-keys-at-construction", mod.loc(node),
                         f"when the class metadata is built, {table_attr} receives no cased keys (only what {src_var} holds); {q} emits {e}. Keys recorded later (e.g. while serialising) "
@@ -292,9 +384,9 @@ def rule_I3(ctx, rule: str = "I3") -> None:
     want = ret.replace("casing.", "").replace(pf.args.args[0].arg, "$key")
     for q, (t, fb, asg) in readers.items():
         if fb and set(fb) == {want}:
-            ctx.proved(rule, f"{q}:proto-name-fallback", mod.loc(asg), want)
+            ctx.proved(rule, f"{q}:proto-name-fallback", asg, want)
         else:
-            ctx.refuted(rule, f"{q}:proto-name-fallback", f"{fb}!={want}", mod.loc(asg),
+            ctx.refuted(rule, f"{q}:proto-name-fallback", f"{fb}!={want}", asg,
                         f"keys that are not emitted forms (e.g. the original proto field name) are mapped with {fb}, but the plugin derived the Python name with {want}")
 
 
